@@ -33,6 +33,13 @@ def pool(rng, scratch):
         items.append(("array-%s" % nm, {"text": H + "float array %s =\n    1, 2\nOp(%s) | 0\n" % (nm, nm)}))
         items.append(("bad-mode-%s" % nm, {"text": H + "float %s = 0.5\nOp | %s\n" % (nm, nm)}))
     items.append(("syntax-error", {"text": H + "int n = 3\nOp(1 2) | 0\n"}))
+    # syntax errors at the very first token, at the end of the text, and a lexical one (state of a parser or lexer that
+    # survived an earlier failure shows on exactly these)
+    items.append(("syntax-error-first-token", {"text": "prog name prog\nversion 1.0\nVac | 0\n"}))
+    items.append(("syntax-error-first-token-2", {"text": "= name prog\nversion 1.0\nVac | 0\n"}))
+    items.append(("syntax-error-missing-name", {"text": "version 1.0\nVac | 0\n"}))
+    items.append(("syntax-error-eof", {"text": H + "Op(1, 2\n"}))
+    items.append(("syntax-error-char", {"text": H + "Op(1 ? 2) | 0\n"}))
     items.append(("syntax-error-late", {"text": H + "int n = 3\nfloat array x =\n    1, 2\nOp | \n"}))
     items.append(("tdm-parray", {"text": "name t\nversion 1.0\ntype tdm (temporal_modes=1)\nfloat array p0 =\n    1, 2\nSgate(p0) | 0\n"}))
     items.append(("tdm-parray-fails", {"text": "name t\nversion 1.0\ntype tdm (temporal_modes=1)\nfloat array p0 =\n    1, 2\nSgate(p0, qqq) | 0\n"}))
@@ -101,6 +108,11 @@ def run(tier, seed):
                 hists.append([a, b])
                 if a is not b:
                     hists.append([a, b, a])
+        # ... and among the scripts that fail in the lexer/parser (plus one valid script and one failing later)
+        syn = [it for it in items if it[0].startswith("syntax-error")] + [it for it in items if it[0] in ("binds-n", "fails-after-binding-n")]
+        for a in syn:
+            for b in syn:
+                hists.append([a, b])
         n = 150 if quick else 3000
         for _ in range(n):
             ln = rng.randint(2, 4 if quick else 6)
